@@ -29,8 +29,8 @@ Corollary C06_string_at_token_start :
     pg_lex scs (append (quote_lit s) post) = option_map (cons (TStr s)) (pg_lex scs post).
 Proof.
   intros scs s post Hn Hf. unfold pg_lex.
-  rewrite (quoted_literal_is_one_token scs LInit [] s post Hn eq_refl); [reflexivity| |exact Hf].
-  intros _. reflexivity.
+  rewrite (quoted_literal_is_one_token scs LInit [] s post Hn eq_refl); [|intros _; reflexivity|exact Hf].
+  destruct (lex_from scs LInit post); reflexivity.
 Qed.
 
 (* Integers: strconv.Itoa gives an optional minus sign and one numeric constant that reads back,
@@ -45,17 +45,17 @@ Proof. exact int_literal. Qed.
 
 (* Booleans are the words true / false *)
 Example C06_bool : forall scs,
-  pg_lex scs "true" = Some [TWord "true"] /\ pg_lex scs "false" = Some [TWord "false"].
+  pg_lex scs "true" = Some [TWord "true" false] /\ pg_lex scs "false" = Some [TWord "false" false].
 Proof. intros [|]; split; reflexivity. Qed.
 
 (* non-vacuity and the classic attack strings *)
 Example C06_examples :
   pg_lex true (append "x = " (append (quote_lit "a'; DROP TABLE t; --") " AND y"))
-    = Some [TWord "x"; TSelf "="; TStr "a'; DROP TABLE t; --"; TWord "AND"; TWord "y"] /\
+    = Some [TWord "x" false; TSelf "="; TStr "a'; DROP TABLE t; --"; TWord "AND" false; TWord "y" false] /\
   pg_lex false (append "f(" (append (quote_lit "\' OR 1=1 /*") ")"))
-    = Some [TWord "f"; TSelf "("; TStr "\' OR 1=1 /*"; TSelf ")"] /\
+    = Some [TWord "f" false; TSelf "("; TStr "\' OR 1=1 /*"; TSelf ")"] /\
   pg_lex true (append "f(" (append (quote_lit "\' OR 1=1 /*") ")"))
-    = Some [TWord "f"; TSelf "("; TStr "\' OR 1=1 /*"; TSelf ")"].
+    = Some [TWord "f" false; TSelf "("; TStr "\' OR 1=1 /*"; TSelf ")"].
 Proof. repeat split; vm_compute; reflexivity. Qed.
 
 (* the hypothesis "no NUL" is necessary: a NUL byte ends the query text (known finding D9) *)
